@@ -505,7 +505,7 @@ func main() {
 	logrus.SetOutput(io.Discard) // log.Panic still panics; the text is not wanted
 	n := flag.Int("n", 100, "cases")
 	seed := flag.Uint64("seed", 1, "seed")
-	mode := flag.String("mode", "all", "seq | loop | panic | all")
+	mode := flag.String("mode", "all", "seq | xseq | loop | panic | all")
 	flag.Parse()
 	enc := json.NewEncoder(os.Stdout)
 	r := &rng{s: *seed}
@@ -516,9 +516,12 @@ func main() {
 		runLoop(r, *n, enc)
 	case "panic":
 		runPanic(r, *n, enc)
+	case "xseq":
+		runXSeq(r, *n, enc)
 	default:
-		nl, np := *n*27/100, *n*13/100
-		runSeq(r, *n-nl-np, enc)
+		nl, np, nx := *n*25/100, *n*12/100, *n*18/100
+		runSeq(r, *n-nl-np-nx, enc)
+		runXSeq(&rng{s: *seed + 3000003}, nx, enc)
 		runLoop(&rng{s: *seed + 1000003}, nl, enc)
 		runPanic(&rng{s: *seed + 2000003}, np, enc)
 	}
